@@ -1157,7 +1157,9 @@ def run_round_trip(ctx, cases, static_defects, kw2cls, timeout_each=25):
                 if p["label"] != "modify":
                     copy_ok = close(cc.bin_orig[i][h], cc.bin_copy[i][h], 100 * TOL)
                 else:
-                    copy_ok = cc.bin_copy is not None and first_diff(cc.bin_orig, cc.bin_copy, tol=100 * TOL) is None
+                    # the SOLUTION_MODIFY runs have their own table (one cell of another solution): no cell of the copy corresponds;
+                    # a gross original-vs-copy difference of this case is reported on its own (instance:model-reuse / followup:bin)
+                    copy_ok = True
             except Exception:
                 copy_ok = False
             text_ok = getattr(cc, "text_restored", False)
